@@ -186,3 +186,13 @@ package machine
 //@   loop 1 decreases n - i
 //@   modifies box Allotment, box int
 //@   property C03
+
+// ---- values built from client text (C12: a variable map cannot put a value into the machine that crashes it;
+// C01: what Run assumes of the resources)
+// machVal(v): a machine value the VM can hold: not a program descriptor, not a funding, numbers and amounts present
+//@ def machVal(v) = v != nil && !typeis(v, "machine.Funding") && !typeis(v, "program.Constant") && !typeis(v, "program.Variable") && !typeis(v, "program.VariableAccountMetadata") && !typeis(v, "program.VariableAccountBalance") && !typeis(v, "program.Monetary") && (typeis(v, "*machine.MonetaryInt") ==> as(v, "*machine.MonetaryInt") != nil) && (typeis(v, "machine.Monetary") ==> as(v, "machine.Monetary").Amount != nil)
+//@ func machine.NewValueFromString
+//@   ensures err == nil ==> machVal(ret0) // C12 C01
+//@   ensures err == nil ==> valType(ret0) == typ
+//@   nopanic // C12
+//@   property C12 C01
